@@ -25,6 +25,8 @@ type ValueRun struct {
 	// TwoProcess runs the driver a second time on the same cases and reports any difference
 	// (repeatability across processes).
 	TwoProcess bool
+	// WithMethods adds named structs with user-declared Equal/Compare methods to the leaves.
+	WithMethods bool
 }
 
 func (vr *ValueRun) Run(cfg hx.Config) (*hx.Meta, error) {
@@ -32,6 +34,7 @@ func (vr *ValueRun) Run(cfg hx.Config) (*hx.Meta, error) {
 	low := strings.ToLower(vr.Prop)
 	r := hx.NewRand(cfg.Seed)
 	cat := NewCatalogue()
+	cat.WithMethods = vr.WithMethods
 	var types []*Type
 	pool := vr.PoolQuick
 	if cfg.Tier == "thorough" {
